@@ -37,7 +37,7 @@ func (g *goGen) scalar(t *rapid.T) *gm.TD {
 }
 
 func (g *goGen) named(t *rapid.T) *gm.TD {
-	return &gm.TD{K: gm.KNamed, Name: rapid.SampledFrom([]string{"MethStr", "PlainStr", "PlainInt", "MethInt", "TextT", "EmbA", "MethBytes", "EmbDeeper"}).Draw(t, "named")}
+	return &gm.TD{K: gm.KNamed, Name: rapid.SampledFrom([]string{"MethStr", "PlainStr", "PlainInt", "MethInt", "TextT", "EmbA", "MethBytes", "EmbDeeper", "SharedPtr"}).Draw(t, "named")}
 }
 
 // pos: root | field | elem | mapval | ptr
@@ -133,7 +133,16 @@ func (g *goGen) structTD(t *rapid.T, depth int) *gm.TD {
 				f.Tag = "--"
 			}
 		}
-		if used[f.KeyName()] && !(f.KeyName() == "x" && emb <= 5) {
+		takesName := false
+		if n >= 2 && rapid.IntRange(0, 11).Draw(t, "takes_name") == 7 {
+			// the tag is the Go name of ANOTHER field of this struct: if that one stays untagged both resolve
+			// to one key at the same depth, and the tagged one owns it (encoding/json's rule)
+			o := rapid.IntRange(0, n-1).Draw(t, "takes_name_of")
+			if o != i && !used[fmt.Sprintf("F%d", o)] {
+				f.Tag, f.Key, takesName = fmt.Sprintf("F%d", o), "", true
+			}
+		}
+		if !takesName && used[f.KeyName()] && !(f.KeyName() == "x" && emb <= 5) {
 			f.Tag, f.Key = "", "" // fall back to the unique field name
 		}
 		if f.KeyName() == "x" && used["x"] {
@@ -317,6 +326,10 @@ func (g *valGen) vd(t *rapid.T, td *gm.TD, depth int, root bool) *gm.VD {
 		nt := gm.Named[td.Name]
 		if td.Name == "TextT" {
 			v.U = uint64(rapid.Uint16().Draw(t, "textt"))
+			return v
+		}
+		if td.Name == "SharedPtr" {
+			v.U = uint64(rapid.Uint32().Draw(t, "sharedx"))
 			return v
 		}
 		if nt.TD.K == gm.KStruct {
